@@ -5,6 +5,7 @@ import os
 import random
 import shutil
 import subprocess
+import time
 
 from . import common
 from .common import d_str, d_opt, d_list
@@ -1197,7 +1198,14 @@ def stage_ambient_sites(rep):
 # ----------------------------------------------------------------------------- system level: configure, then regenerate/env
 TC_LINES = ["environ['CFLAGS'] = '-O1 -DTC=1'", "environ['C09_ADDED'] = 'a b'", "del environ['C09_DROP']",
             "environ.setdefault('C09_DFLT', 'd')", "environ.pop('C09_POP', None)", "environ.update({'C09_UPD': 'u'})",
-            "compile_options(['-DOPT=1'], 'c')", "environ['CPPFLAGS'] = '-DFROM_TC'", "environ['C09_ADDED'] = 'again'"]
+            "compile_options(['-DOPT=1'], 'c')", "environ['CPPFLAGS'] = '-DFROM_TC'", "environ['C09_ADDED'] = 'again'",
+            "link_options(['-Wl,--as-needed'])", "lib_options(['-lm'])"]
+# install directories: the toolchain file proposes some (install_dirs(...)), the configure command line overrides a subset;
+# what configure saved is what every later regeneration (of either kind) must use
+INSTALL_DIR_NAMES = ('prefix', 'exec_prefix', 'bindir', 'libdir', 'includedir', 'datadir', 'mandir')
+# how a regeneration is started: `bfg9000 regenerate`, `bfg9000 regenerate --lazy` (what the backend runs), and the
+# backend itself (make) after the modification time of a regeneration input moved forward
+REGEN_KINDS = ('full', 'lazy', 'lazy-touched-script', 'make-touched-script', 'make-touched-toolchain')
 OUTPUTS = ('Makefile', 'compile_commands.json', '.bfg_environ')
 
 
@@ -1213,7 +1221,23 @@ def read_outputs(build):
     return out
 
 
+def json_leaf_diff(a, b, path=()):
+    """[(path, a-leaf, b-leaf)] for two JSON values"""
+    if isinstance(a, dict) and isinstance(b, dict):
+        out = []
+        for k in sorted(set(a) | set(b)):
+            out += json_leaf_diff(a.get(k), b.get(k), path + (k,))
+        return out
+    if isinstance(a, list) and isinstance(b, list) and len(a) == len(b):
+        out = []
+        for i, (x, y) in enumerate(zip(a, b)):
+            out += json_leaf_diff(x, y, path + (i,))
+        return out
+    return [] if a == b else [(list(path), a, b)]
+
+
 _HARVEST = []
+KIND_COUNTS = {}      # how the regenerations of the system stage were started (evidence)
 
 
 def harvested_variable_names():
@@ -1237,11 +1261,19 @@ def harvested_variable_names():
 
 def system_case(rng, top, which_probe):
     """One project: configure under E0, regenerate/env under perturbed ambient state. Returns list of (classes, message)."""
-    src, build, fake = os.path.join(top, 'src dir'), os.path.join(top, 'build'), os.path.join(top, 'fakebin')
+    # a blank in the source directory exercises the saved paths; GNU Make cannot be the driver then (C04 finding
+    # make-srcdir-location-special), so the make-driven regenerations use the plain name
+    srcname = rng.choice(['src dir', 'srcdir'])
+    src, build, fake = os.path.join(top, srcname), os.path.join(top, 'build'), os.path.join(top, 'fakebin')
     for d in (src, fake, os.path.join(top, 'elsewhere')):
         os.makedirs(d)
+    uses_find = rng.random() < 0.5          # with a find cache the lazy regeneration goes through find_check_cache
     with open(os.path.join(src, 'build.bfg'), 'w') as f:
-        f.write("project('p')\nprog = executable('prog', files=['main.c'])\ninstall(prog)\n")
+        f.write("project('p')\nprog = executable('prog', files=%s)\ninstall(prog, header_file('p.h'), man_page('p.1'))\n"
+                % ("find_files('*.c')" if uses_find else "['main.c']"))
+    for fn in ('p.h', 'p.1'):
+        with open(os.path.join(src, fn), 'w') as f:
+            f.write('\n')
     with open(os.path.join(src, 'options.bfg'), 'w') as f:
         f.write("argument('level', default='0')\n")
     with open(os.path.join(src, 'main.c'), 'w') as f:
@@ -1251,6 +1283,13 @@ def system_case(rng, top, which_probe):
     lines = lines[:rng.randint(2, len(lines))]
     if which_probe:
         lines.append("compiler(['c09-cc', 'gcc'], 'c')")
+    tc_dirs = {k: '/tc/%s%s' % (k, rng.choice(['', '/'])) for k in INSTALL_DIR_NAMES if rng.random() < 0.6}
+    cli_dirs = {k: '/cli/%s' % k for k in INSTALL_DIR_NAMES if rng.random() < (0.6 if k in tc_dirs else 0.3)}
+    if tc_dirs and not set(tc_dirs) & set(cli_dirs):
+        k = rng.choice(sorted(tc_dirs))
+        cli_dirs[k] = '/cli/%s' % k             # at least one directory named by both
+    if tc_dirs:
+        lines.insert(rng.randint(0, len(lines)), 'install_dirs(%s)' % ', '.join('%s=%r' % kv for kv in sorted(tc_dirs.items())))
     tc = os.path.join(top, 'tc.bfg')
     with open(tc, 'w') as f:
         f.write('\n'.join(lines) + '\n')
@@ -1267,10 +1306,18 @@ def system_case(rng, top, which_probe):
             '--level=%d' % rng.randint(1, 9)]
     if rng.random() < 0.5:
         args.append('--enable-static')
+    args += ['--%s=%s' % (k.replace('_', '-'), v) for k, v in sorted(cli_dirs.items())]
     p = run_bfg(args, e0, top)
     if p.returncode != 0:
         return [((), 'configure failed: ' + (p.stderr or p.stdout)[-500:])], 0
     ref = read_outputs(build)
+    # what configure saved: the command line wins over the toolchain file, the toolchain file over the platform default
+    saved = json.loads(ref['.bfg_environ'].decode())['data']['install_dirs']
+    for k in INSTALL_DIR_NAMES:
+        want = cli_dirs.get(k, tc_dirs.get(k))
+        if want is not None and saved[k][0].rstrip('/') != want.rstrip('/'):
+            return [((), 'configure with toolchain install_dirs(%r) and command line %r saved %s = %r' % (
+                tc_dirs, cli_dirs, k, saved[k]))], 0
     refenv = run_bfg(['env', build], e0, top).stdout
     problems = []
     n = 0
@@ -1288,7 +1335,9 @@ def system_case(rng, top, which_probe):
                                                            if k not in ('PATH', 'HOME', 'PYTHONPATH')}, top, build))
     if which_probe:
         perturbations.append(('path-without-configured-tool', {'PATH': base_path}, top, build))
-    for name, delta, cwd, barg in perturbations:
+    kinds = list(REGEN_KINDS)
+    rng.shuffle(kinds)
+    for pi, (name, delta, cwd, barg) in enumerate(perturbations):
         e = dict(e0)
         for k, v in delta.items():
             if v is None:
@@ -1296,8 +1345,23 @@ def system_case(rng, top, which_probe):
             else:
                 e[k] = v
         n += 1
-        p = run_bfg(['regenerate', barg], e, cwd)
-        cls = ('toolchain-which-ambient-path',) if name == 'path-without-configured-tool' else ()
+        how = kinds[pi % len(kinds)]
+        if how.startswith('make') and ' ' in srcname:
+            how = 'lazy' + how[len('make'):]
+        if how.endswith('touched-script') or how.endswith('touched-toolchain'):
+            time.sleep(0.02)
+            os.utime(tc if how.endswith('toolchain') else os.path.join(src, 'build.bfg'), None)
+        if how.startswith('make'):
+            p = subprocess.run(['make', '--no-print-directory', '-C', os.path.join(cwd, barg), 'Makefile'], env=e, cwd=cwd,
+                               capture_output=True, text=True, timeout=120)
+            if p.returncode == 0 and 'regenerate --lazy' not in p.stdout:
+                problems.append(((), 'make did not start the regeneration after the %s was touched: %s' % (
+                    how.split('-')[-1], p.stdout[-300:])))
+        else:
+            p = run_bfg(['regenerate'] + (['--lazy'] if how.startswith('lazy') else []) + [barg], e, cwd)
+        name = '%s (%s)' % (name, how)
+        KIND_COUNTS[how] = KIND_COUNTS.get(how, 0) + 1
+        cls = ('toolchain-which-ambient-path',) if name.startswith('path-without-configured-tool') else ()
         if p.returncode != 0:
             problems.append((cls, 'regenerate under %s failed: %s' % (name, (p.stderr or p.stdout)[-400:])))
             continue
@@ -1306,11 +1370,29 @@ def system_case(rng, top, which_probe):
             if got[fn] != ref[fn]:
                 a, b = (ref[fn] or b'').decode(errors='replace').split('\n'), (got[fn] or b'').decode(errors='replace').split('\n')
                 d = [(x, y) for x, y in zip(a, b) if x != y][:2]
-                problems.append((cls, '%s differs after regenerate under %s (toolchain %r): %r' % (fn, name, lines, d)))
+                fcls = cls
+                if fn == '.bfg_environ' and ref[fn] and got[fn]:
+                    d = json_leaf_diff(json.loads(ref[fn].decode()), json.loads(got[fn].decode()))
+                    # known finding (narrow): a directory that only the toolchain file names, written there without a
+                    # trailing separator, is saved as a non-directory path and comes back as a directory path; nothing else
+                    slash_only = [x for x in d if len(x[0]) == 4 and x[0][:2] == ['data', 'install_dirs'] and x[0][3] == 0 and
+                                  x[0][2] in tc_dirs and x[0][2] not in cli_dirs and isinstance(x[1], str) and x[2] == x[1] + '/']
+                    if slash_only:
+                        problems.append((('toolchain-install-dir-saved-as-non-directory',),
+                                         '.bfg_environ differs after regenerate under %s: install directory given only by the toolchain '
+                                         'file without a trailing separator is saved as a file path and re-saved as a directory path: %r'
+                                         % (name, slash_only)))
+                        d = [x for x in d if x not in slash_only]
+                        if not d:
+                            ref[fn] = got[fn]       # from here on compare with the re-saved form
+                            continue
+                    d = d[:4]
+                problems.append((fcls, '%s differs after regenerate under %s (toolchain %r, command line %r): %r' % (
+                    fn, name, lines, sorted(cli_dirs.items()), d)))
         genv = run_bfg(['env', barg], e, cwd).stdout
         if genv != refenv:
             problems.append((cls, '`bfg9000 env` differs under %s' % name))
-        if name == 'path-without-configured-tool':
+        if name.startswith('path-without-configured-tool') or any(not c for c, _ in problems):
             break       # later comparisons would only repeat this difference
     return problems, n
 
@@ -1333,6 +1415,9 @@ def stage_system(rep, rng, n):
         finally:
             shutil.rmtree(top, ignore_errors=True)
     rep.traces += runs
+    for k, v in sorted(KIND_COUNTS.items()):
+        rep.count('system.regeneration:' + k, v)
+    KIND_COUNTS.clear()
     rep.stage('system:regenerate-under-perturbed-ambient', projects=n, regenerations=runs, failures=bad)
     return bad
 
